@@ -6,9 +6,10 @@ from ..core import deadline, import_repo, MachineryError, Deadline
 from ..behav import parse_ev
 
 LEVEL = "model_checking"
-CONSTS = ("CONSTANTS SpsVals = {%s}\n RVals = {%s}\n FsVals = {%s}\n NVals = {%s}\n WlVals = {%s}\n Keys = {%s}\n")
+CONSTS = ("CONSTANTS SpsVals = {%s}\n RVals = {%s}\n FsVals = {%s}\n NVals = {%s}\n WlVals = {%s}\n Keys = {%s}\n DefaultR = 1000\n")
 FULL = CONSTS % ("8,16", "1000,2000", "8000,16000,32000", "4,10", "1310", '"alpha"')
 WIDE = CONSTS % ("4,8,16", "500,1000,2000", "8000,16000,32000", "1,4,10", "1310,1064", '"alpha","beta"')
+TRACE = CONSTS % ("4,5,8,10,16", "500,1000,2000,3000", "5000,8000,10000,15000,16000,32000", "1,4,10", "1310,1064", '"alpha","beta"')   # domains of the recorded traces
 SMALL = CONSTS % ("8,16", "1000,2000", "16000,32000", "4", "1310", '"alpha"')
 PROPS = "INVARIANT GridConsistent\nINVARIANT CleanRestores\nPROPERTY CustomPersists\nPROPERTY NSticky\nCHECK_DEADLOCK FALSE\n"
 
@@ -43,8 +44,14 @@ def run(ctx):
     ctx.extra["discharged"] = 2
     ctx.extra["inductive_invariant"] = "GlobalGridInd!IndInv (Apalache 0.58, unbounded Int): Init => IndInv; IndInv /\\ Next => IndInv'"
 
+    # the specification's abstract custom keys stand for arbitrary attribute names chosen by the user, including names that are
+    # fragments of the built-in ones
+    KEYMAP = {"alpha": "alpha", "beta": "beta"}
+    ALT = [("alpha", "beta"), ("length", "n"), ("d", "l"), ("p", "wave"), ("s", "f"), ("Vpi", "BW"), ("ps", "dt_"), ("a", "e")]
+
     def real_state():
-        cust = sorted(k for k in vars(gv) if k not in ("sps", "R", "fs", "dt", "wavelength", "f0", "N", "t", "w", "dw"))
+        inv = {v: k for k, v in KEYMAP.items()}
+        cust = sorted(inv.get(k, "?" + k) for k in vars(gv) if k not in ("sps", "R", "fs", "dt", "wavelength", "f0", "N", "t", "w", "dw"))
         return cust
 
     def close(a, b, rel=1e-12):
@@ -92,6 +99,8 @@ def run(ctx):
             return False
         return True
 
+    UNIT = [1e6]          # Hz per rate unit of the specification instance (1e6, or 1e6/3: then no rate is a whole number of Hz)
+
     def do_call(c):
         if c["op"] == "clean":
             gv.clean()
@@ -100,15 +109,15 @@ def run(ctx):
         if opt(c["sps"]) is not None:
             kw["sps"] = opt(c["sps"])
         if opt(c["R"]) is not None:
-            kw["R"] = opt(c["R"]) * 1e6
+            kw["R"] = opt(c["R"]) * UNIT[0]
         if opt(c["fs"]) is not None:
-            kw["fs"] = opt(c["fs"]) * 1e6
+            kw["fs"] = opt(c["fs"]) * UNIT[0]
         if opt(c["wl"]) is not None:
             kw["wavelength"] = opt(c["wl"]) * 1e-9
         if opt(c["N"]) is not None:
             kw["N"] = opt(c["N"])
         for k in c["keys"]:
-            kw[k] = 0.5
+            kw[KEYMAP[k]] = 0.5
         with warnings.catch_warnings():
             warnings.simplefilter("ignore")
             gv(**kw)
@@ -124,8 +133,9 @@ def run(ctx):
     evs = parse_ev(r.out)
     if len(evs) != r.distinct - 1:
         raise MachineryError(f"parsed {len(evs)} histories of {r.distinct - 1}")
-    for ev in evs:
+    for n_ev, ev in enumerate(evs):
         gv.clean()
+        KEYMAP["alpha"], KEYMAP["beta"] = ALT[n_ev % len(ALT)]
         with deadline(30):
             for c in ev["hist"]:
                 do_call(c)
@@ -141,10 +151,10 @@ def run(ctx):
         def o(vals, p):
             return [rnd.choice(vals)] if rnd.random() < p else []
         for _ in range(100):
-            c = {"op": "call", "sps": o([4, 8, 16], .4), "R": o([500, 1000, 2000], .4), "fs": o([8000, 16000, 32000], .3),
+            c = {"op": "call", "sps": o([4, 5, 8, 10, 16], .4), "R": o([500, 1000, 2000, 3000], .4), "fs": o([5000, 8000, 10000, 15000, 16000, 32000], .3),
                  "wl": o([1310, 1064], .2), "N": o([1, 4, 10], .3), "keys": [k for k in ("alpha", "beta") if rnd.random() < .15]}
             s, R_, f = opt(c["sps"]), opt(c["R"]), opt(c["fs"])
-            curR = gv.R / 1e6
+            curR = round(gv.R / UNIT[0])
             if s is not None:
                 ok = True if R_ is not None else (f is None or f % s == 0)
             elif R_ is not None:
@@ -156,15 +166,17 @@ def run(ctx):
         return {"op": "clean"}
 
     def project():
-        return {"sps": int(gv.sps), "R": int(round(gv.R / 1e6)), "fs": int(round(gv.fs / 1e6)), "wl": int(round(gv.wavelength * 1e9)),
+        return {"sps": int(gv.sps), "R": int(round(gv.R / UNIT[0])), "fs": int(round(gv.fs / UNIT[0])), "wl": int(round(gv.wavelength * 1e9)),
                 "N": [] if gv.N is None else [int(gv.N)],
-                "grid": [] if gv.t is None else [[len(gv.t), int(round(gv.dw * len(gv.t) / (2 * math.pi) / 1e6))]],
+                "grid": [] if gv.t is None else [[len(gv.t), int(round(gv.dw * len(gv.t) / (2 * math.pi) / UNIT[0]))]],
                 "custom": real_state()}
 
     ntr = 100 if T else 8
     for tr in range(ntr):
         gv.clean()
         trace = []
+        UNIT[0] = 1e6 if tr % 2 == 0 else 1e6 / 3
+        KEYMAP["alpha"], KEYMAP["beta"] = ALT[tr % len(ALT)]
         for _ in range(60):
             c = rand_call()
             with deadline(30):
@@ -172,25 +184,28 @@ def run(ctx):
             st = project()
             # the projection above is lossy on purpose (integers for TLC); the float-level fields are compared here
             spec_like = dict(st)
-            if not (close(gv.dt, 1 / gv.fs) and close(gv.f0, C_LIGHT / gv.wavelength) and close(gv.fs, gv.R * gv.sps) and
+            if not (isinstance(gv.sps, (int, np.integer)) and close(gv.R, st["R"] * UNIT[0], 1e-9) and close(gv.fs, st["fs"] * UNIT[0], 1e-9) and close(gv.dt, 1 / gv.fs) and close(gv.f0, C_LIGHT / gv.wavelength) and close(gv.fs, gv.R * gv.sps) and
                     (gv.w is None or (len(gv.w) == len(gv.t) and np.allclose(gv.w, 2 * np.pi * np.fft.fftshift(np.fft.fftfreq(len(gv.w))) * gv.fs, rtol=1e-9, atol=1e-3)))):
                 ctx.violation("gv-trace:derived-fields", "dt/f0/fs/w inconsistent with the values in force", {"call": c, "state": st})
             trace.append({**c, "state": st} if c["op"] == "call" else {"op": "clean", "state": st})
-            ctx.case(("trace",) + callclass(c))
+            ctx.case(("trace", tr % 2, KEYMAP["alpha"]) + callclass(c))
         f = ctx.newfile("gvtrace", "ndjson")
         with open(f, "w") as fh:
             for e in trace:
                 fh.write(json.dumps(e) + "\n")
         out = ctx.newfile("gvtrace_out", "json")
-        ctx.tlc("GlobalGridTrace", "SPECIFICATION TraceSpec\nINVARIANT Report\nCHECK_DEADLOCK FALSE\n" + WIDE,
+        ctx.tlc("GlobalGridTrace", "SPECIFICATION TraceSpec\nINVARIANT Report\nCHECK_DEADLOCK FALSE\n" + (TRACE if tr % 2 == 0 else TRACE.replace("DefaultR = 1000", "DefaultR = 3000")),
                 env={"IN_FILE": f, "OUT_FILE": out}, workers=1, note="gv trace", count=False)
         res = json.load(open(out))
         ctx.traces += 1
         ctx.events += len(trace)
         if res["matched"] != res["n"]:
             bad = trace[res["matched"]]
+            UNIT[0] = 1e6
             ctx.violation("gv-trace:" + "/".join(callclass(bad)), f"event {res['matched'] + 1} of a recorded gv history is not a step of GlobalGrid: {bad}",
                           {"trace": trace[:res["matched"] + 1]})
+    UNIT[0] = 1e6
+    KEYMAP["alpha"], KEYMAP["beta"] = "alpha", "beta"
     gv.clean()
     # ------------------------------------------------------------------ 4. purity of the library functions (World)
     ctx.tlc("World", "SPECIFICATION Spec\nPROPERTY Reproducible\nCHECK_DEADLOCK FALSE\nCONSTANTS Funcs = {\"det\",\"rand\"}\n "
